@@ -27,8 +27,10 @@ CONSTANTS Workers, Channels, JobIds, Prios, Tmos, Ttls, Clients, Killers,
           RequeueDone,         \* shutdown re-pushes finished jobs too
           DeliverDone,         \* pop returns a job that finished while in the mailbox
           WithRestart, WithWait, WithInfo, WithDrop, WithReconnect, AtomicDrain,
-          AnyRequeueOrder     \* TRUE: the unfinished jobs of a dropped connection may be re-queued in any order
+          AnyRequeueOrder,    \* TRUE: the unfinished jobs of a dropped connection may be re-queued in any order
                               \* (the code uses the insertion order of running_jobs; the property leaves it free)
+          AnyDeadlineStart    \* TRUE: the time-to-live of a finished job may start when it finishes OR at the
+                              \* first watchdog run after that (the code does the latter; the properties fix neither)
 
 VARIABLES count,     \* serial counter (workq.count)
           job,       \* sequence of job records indexed by serial
@@ -110,10 +112,12 @@ DelRun(run, id) == SelectSeq(run, LAMBDA s : job[s].id # id)
 (* _mark_finished on a set of serials (no-op on done ones), with the event notification of
    clients blocked in waitjobs *)
 Outcome(e) == IF e = "none" THEN "success" ELSE IF e \in {"killed", "timeout"} THEN e ELSE "error"
-MarkJobs(ss, e, r, capTtl) ==      \* capTtl: finishjob lowers the ttl of a failed job to <= 10
+Eagers == IF AnyDeadlineStart THEN BOOLEAN ELSE {FALSE}
+MarkJobs(ss, e, r, capTtl, eager, t) ==      \* capTtl: finishjob lowers the ttl of a failed job to <= 10
   [s \in DOMAIN job |-> IF s \in ss /\ ~job[s].done
-                        THEN [job[s] EXCEPT !.done = TRUE, !.err = e, !.res = r,
-                                            !.ttl = IF capTtl /\ e # "none" THEN Min(10, @) ELSE @]
+                        THEN LET nttl == IF capTtl /\ e # "none" THEN Min(10, job[s].ttl) ELSE job[s].ttl IN
+                             [job[s] EXCEPT !.done = TRUE, !.err = e, !.res = r, !.ttl = nttl,
+                                            !.deadline = IF eager THEN t + nttl ELSE @]
                         ELSE job[s]]
 MarkStats(ss, e) ==
   [c \in Channels |->
@@ -256,7 +260,7 @@ DrainDone ==
 Finish(w, id, e) ==
   /\ Quiet /\ conn[w] = "idle" /\ id2job[id] # NoJob
   /\ LET s == id2job[id] IN
-     /\ job' = MarkJobs({s}, e, IF e = "none" THEN "r" ELSE "none", TRUE)
+     /\ \E eager \in Eagers : job' = MarkJobs({s}, e, IF e = "none" THEN "r" ELSE "none", TRUE, eager, now)
      /\ stats' = MarkStats({s}, e)
      /\ wake' = WakeClients(wake, {s})
   /\ running' = [running EXCEPT ![w] = DelRun(@, id)]
@@ -267,7 +271,7 @@ Finish(w, id, e) ==
 Kill(k, id) ==
   /\ Quiet /\ (k \in Workers => conn[k] = "idle")
   /\ LET ss == IF id2job[id] # NoJob THEN {id2job[id]} ELSE {} IN
-     /\ job' = MarkJobs(ss, "killed", "none", FALSE)
+     /\ \E eager \in Eagers : job' = MarkJobs(ss, "killed", "none", FALSE, eager, now)
      /\ stats' = MarkStats(ss, "killed")
      /\ wake' = WakeClients(wake, ss)
   /\ running' = IF k \in Workers THEN [running EXCEPT ![k] = DelRun(@, id)] ELSE running
@@ -279,7 +283,7 @@ AdvanceClock ==
   /\ Quiet /\ now < MaxTime
   /\ now' = now + 1
   /\ LET ss == {s \in DOMAIN job : ~job[s].done /\ job[s].tmo <= now + 1} IN
-     /\ job' = MarkJobs(ss, "timeout", "none", FALSE)
+     /\ \E eager \in Eagers : job' = MarkJobs(ss, "timeout", "none", FALSE, eager, now + 1)
      /\ stats' = MarkStats(ss, "timeout")
      /\ wake' = WakeClients(wake, ss)
      /\ heap' = PreenAll(job', heap)
